@@ -25,7 +25,7 @@ def generate(tier, scen, seed, sample=None):
             # depth-limited fetches that may FOLLOW a tag (no refspec covers it) are all kept - a followed tag is
             # the one ref a fetch may put on a commit it received without its table; the rest is sampled
             risky = (d.get("op") == "fetch" and d.get("depth", 0) > 0 and d.get("mode") == "none") or \
-                (d.get("twin", 0) != 0 and (i + seed) % 2 == 0)
+                (d.get("twin", 0) != 0 and (i + seed) % 2 == 0) or d.get("op") == "merge"   # (merges: few and cheap)
             if sample and (i * 7 + seed) % sample != 0 and not risky:
                 continue
             d["maxpack"] = packs[i % len(packs)]
